@@ -30,6 +30,30 @@ def run(ck: Check, prog: Program) -> None:
         for rule, construct, line, msg in problems:
             ck.finding(rule, cr.traced_wrapper.qualname if rule != 'DECOR-ORDER' else cr.send_impl.qualname, construct,
                        cr.cls.module.rel, line, msg)
+        # "the exception still reaches the caller unchanged": nothing between the traced attempt and the public method may catch
+        # an exception and raise a different one (the tracers were told about the original)
+        import ast as _ast
+        from ..cfg import CFG
+        from ..model import norm as _norm
+        from .dfacts import handler_body_nodes
+        for g in (cr.retried_wrapper, cr.send, cr.call, cr.notify):
+            ck.functions.add(g.qualname)
+            cfg = CFG(g, prog)
+            bad = []
+            for h in [n for n in cfg.nodes if n.kind == 'handler']:
+                body = handler_body_nodes(cfg, h)
+                hname = h.ast.name if isinstance(h.ast, _ast.ExceptHandler) else None
+                for n in body:
+                    a = n.ast
+                    if isinstance(a, _ast.Raise) and a.exc is not None and not (isinstance(a.exc, _ast.Name) and a.exc.id == hname):
+                        bad.append((n, f'`{_norm(a)[:80]}` replaces the caught exception'))
+                    if isinstance(a, _ast.Return):
+                        bad.append((n, f'`{_norm(a)[:60]}` swallows the caught exception'))
+            ck.ob('TRACE-RERAISE', f'{short(g.qualname)}: no handler between the traced attempt and the caller replaces or swallows an exception', not bad)
+            for n, why in bad:
+                ck.finding('TRACE-RERAISE', g.qualname, why[:70], g.module.rel, n.line,
+                           f'{short(g.qualname)}: {why}: tracers are told about the original exception (on_error) but the caller receives a '
+                           f'different object / nothing, so what the caller sees no longer matches the completion event')
     ck.require('TRACE-TYPESTATE', 'traced wrappers', len(crs), 2)
 
 
